@@ -207,15 +207,23 @@ def run_space(rec, sh, tier, seed):
                 if tier == "quick":
                     grids = grids[::3]
                 for grid in grids:
-                    for start in (0, None):
+                    for start_form in (0, None, "0-d tensor"):
+                        # the start position also as a 0-d tensor (e.g. the result of an argmax): it denotes position 0 for every spacing
+                        # row and must come back unchanged
+                        start = 0 if start_form == "0-d tensor" else start_form
                         maxspan = max(sum(g) for g in grid) + tot
                         if start == 0 and maxspan > L:
                             continue
+                        if start_form == "0-d tensor" and len(grid) < 2:
+                            continue
+                        start_arg = torch.tensor(0) if start_form == "0-d tensor" else start
                         bs = (1, 2, 5, 32)[(len(grid) + nargs + B) % 4]
-                        case = dict(w="space", B=B, L=L, n_out=n_out, n_args=nargs, motifs=motifs, spacing=grid, start=start, batch_size=bs)
+                        case = dict(w="space", B=B, L=L, n_out=n_out, n_args=nargs, motifs=motifs, spacing=grid, start=start, start_form=str(start_form), batch_size=bs)
                         kw = dict(args=args) if args else {}
-                        st, val = call(space, model, X, motifs, [list(g) for g in grid], start=start, batch_size=bs, device="cpu", **kw)
+                        st, val = call(space, model, X, motifs, [list(g) for g in grid], start=start_arg, batch_size=bs, device="cpu", **kw)
                         rec.case(1, int(B >= 2 or len(grid) >= 2))
+                        if start_form == "0-d tensor" and int(start_arg) != 0:
+                            rec.violation("space:start_argument_modified", case, expected=0, observed=int(start_arg))
                         if st != "ok":
                             rec.violation("space:raises", case, observed=val)
                             continue
